@@ -106,6 +106,9 @@ func (ctx *Ctx) cloop(node *node, tpl *Tpl, w io.Writer) {
 		}
 	}
 
+	// Counter var must reference the actual counter: nested loops may have moved the counters buffer.
+	ctx.SetStatic(byteconv.B2S(node.loopCnt), &ctx.bufLC[idxLC])
+
 	if c == 0 && len(node.child) > 1 && node.child[1].typ == typeCondFalse {
 		child := node.child[1].child
 		for j := 0; j < len(child); j++ {
